@@ -23,6 +23,8 @@ CONSTANTS
   RenewTTLTicks = 2
   Realloc = FALSE
   StopChan = "once"
+  MaxU = 1
+  ExhaustionReturnsLast = FALSE
   WithLapse = FALSE
   Emit = FALSE
 INIT Init
